@@ -67,6 +67,14 @@ TExit ==  /\ Running /\ CurOp.op = "exit"
 TAlign == /\ Running /\ CurOp.op = "align" /\ padleft = -1
           /\ IF Kept("align") THEN woff = 0 /\ HasEv("align") /\ CurOp.unit = Ev.unit /\ Ev.pos = pos /\ Step(DoAlignStart)
              ELSE Quiet(DoAlignStart)
+\* An alignment request that writes nothing may or may not be made by a correct serializer: the machine's is taken
+\* without an event when no padding is due, and a recorded one that moved nothing is passed over.  (Leaving such a
+\* call out, or adding one, changes no byte and no position.)
+TAlignSilent == /\ Running /\ CurOp.op = "align" /\ padleft = -1 /\ Kept("align") /\ woff = 0
+                /\ CurOp.unit > 0 /\ PadTo(pos, CurOp.unit) = 0
+                /\ Quiet(DoAlignStart)
+TAlignNoop == /\ Kept("align") /\ HasEv("align") /\ woff = 0 /\ Ev.after = Ev.pos
+              /\ l' = l + 1 /\ UNCHANGED <<serVars, tcase, silentOk, woff, keep>>
 \* write_bytes announces the block (row pushed before the write): no machine step yet, the write follows
 TBlock == /\ Kept("block") /\ HasEv("block") /\ Running /\ CurOp.op = "block" /\ woff = 0
           /\ CurOp.unit = Ev.unit /\ Ev.pos = pos /\ Ev.len = Len(CurOp.bytes)
@@ -114,7 +122,7 @@ TEps ==
              /\ \E j \in 1..Len(rows) : rows[j].field[Len(rows[j].field)] = "zero" /\ rows[j].off = b.off /\ rows[j].size = b.len
   /\ l' = l + 1 /\ UNCHANGED <<serVars, tcase, silentOk, woff, keep>>
 
-TNext == TStart \/ TEnter \/ TExit \/ TAlign \/ TBlock \/ TWrite \/ TFlush \/ TRet \/ TRows \/ TFull \/ TEps
+TNext == TStart \/ TEnter \/ TExit \/ TAlign \/ TAlignSilent \/ TAlignNoop \/ TBlock \/ TWrite \/ TFlush \/ TRet \/ TRows \/ TFull \/ TEps
 
 \* remember the furthest line reached (silent steps make the diameter useless for acceptance)
 Furthest == TLCSet(42, IF l > TLCGet(42) THEN l ELSE TLCGet(42))
